@@ -223,6 +223,10 @@ def evaluate(ctx, cases):
                 ctx.mismatch("patch.apply", c, impl, m["result"])
             if "err" in o and o.get("family") != "patch":
                 ctx.violation("applying a patch may only fail with a patch error", c, o["err"], "JSONPatchError family")
+            # the other ways of saying the same thing: jsonpath.patch.apply, the patch as JSON text / file-like object,
+            # the document as JSON text / file-like object
+            if ctx.rng.random() < (0.05 if ctx.tier == "quick" else 0.3):
+                _other_forms(ctx, c, impl)
             # copy independence (identity probe): no container of the result is shared
             if "ok" in o and any(op["op"] == "copy" for op in c["ops"]):
                 ids = {}
@@ -246,6 +250,38 @@ def evaluate(ctx, cases):
             else:
                 if not ("err" in impl and impl["err"] in ("JSONPatchError", "JSONPatchTestFailure")):
                     ctx.violation("the operation violates RFC 6902; apply() must fail with a patch error", c, impl, {"err": "JSONPatchError"})
+
+
+def _other_forms(ctx, c, impl):
+    import io
+    import json
+    import jsonpath
+    from jsonpath import JSONPatch
+
+    ctx.count("other-forms")
+    try:
+        ops_txt = json.dumps(c["ops"], ensure_ascii=False)
+    except (TypeError, ValueError):
+        return
+    forms = {
+        "jsonpath.patch.apply(ops, doc)": lambda: jsonpath.patch.apply(copy.deepcopy(c["ops"]), copy.deepcopy(c["doc"])),
+        "JSONPatch(JSON text)": lambda: JSONPatch(ops_txt).apply(copy.deepcopy(c["doc"])),
+        "JSONPatch(StringIO)": lambda: JSONPatch(io.StringIO(ops_txt)).apply(copy.deepcopy(c["doc"])),
+        "JSONPatch(BytesIO)": lambda: JSONPatch(io.BytesIO(ops_txt.encode("utf-8"))).apply(copy.deepcopy(c["doc"])),
+        "jsonpath.patch.apply(JSON text, doc)": lambda: jsonpath.patch.apply(ops_txt, copy.deepcopy(c["doc"])),
+    }
+    if isinstance(c["doc"], (dict, list)):
+        doc_txt = json.dumps(c["doc"], ensure_ascii=False)
+        forms["apply(JSON text document)"] = lambda: JSONPatch(copy.deepcopy(c["ops"])).apply(doc_txt)
+        forms["apply(StringIO document)"] = lambda: JSONPatch(copy.deepcopy(c["ops"])).apply(io.StringIO(doc_txt))
+        forms["apply(BytesIO document)"] = lambda: JSONPatch(copy.deepcopy(c["ops"])).apply(io.BytesIO(doc_txt.encode("utf-8")))
+    if not any("\\" in str(op.get(k, "")) for op in c["ops"] for k in ("path", "from")):
+        forms["JSONPatch(ops, unicode_escape=False)"] = lambda: JSONPatch(copy.deepcopy(c["ops"]), unicode_escape=False).apply(copy.deepcopy(c["doc"]))
+    for name, fn in forms.items():
+        o = core.outcome(fn)
+        r = {"ok": core.canon(o["ok"])} if "ok" in o else {"err": o["err"]}
+        if r != impl:
+            ctx.violation("every way of building the same patch and supplying the same document must have the same effect", {**c, "form": name}, r, impl)
 
 
 def search(ctx):
